@@ -34,6 +34,31 @@ class VPacked(Value):
         return 'VPacked(%d, %s)' % (self.k, self.t)
 
 
+class VPackedSeq(Value):
+    """several little-endian unsigned fields in a row: [(k, value)]"""
+    shape = 'packedseq'
+
+    def __init__(self, fields):
+        self.fields = fields
+
+    def __repr__(self):
+        return 'VPackedSeq(%r)' % (self.fields,)
+
+
+def parse_fmt(fmt):
+    """'<4I3Q5I' -> [4,4,4,4,8,8,8,4,...] (little-endian, unsigned, no padding) or None"""
+    import re
+    if not fmt.startswith('<'):
+        return None
+    out = []
+    for cnt, ch in re.findall(r'(\d*)([A-Za-z])', fmt[1:]):
+        k = {'Q': 8, 'L': 4, 'I': 4, 'H': 2, 'B': 1}.get(ch)
+        if k is None:
+            return None
+        out += [k] * (int(cnt) if cnt else 1)
+    return out
+
+
 def disjoint(o1, n1, o2, n2):
     return z3.Or(o1 + n1 <= o2, o2 + n2 <= o1)
 
@@ -50,6 +75,7 @@ def fresh_file(ex, st, name='fh'):
     h['$int_at'] = lambda off, k: f_int(off, k)
     h['$blob_at'] = lambda off, n: f_blob(off, n)
     h['$closed'] = False
+    h['$pending'] = ()          # (offset, length) of writes still in the handle's userspace buffer
     ex.used_stubs.add('file-object model: field-granular read-over-write, disjoint-frame; partial overlaps unspecified; '
                       'writes on one handle reach the file in program order')
     return obj
@@ -90,6 +116,7 @@ def write_int(ex, st, fh, off, k, v):
     ln = h['len'].t
     h['len'] = VInt(z3.If(off + kk > ln, off + kk, ln))
     h['pos'] = VInt(off + kk)
+    h['$pending'] = tuple(h.get('$pending', ())) + ((off, kk),)
 
 
 def write_blob(ex, st, fh, off, blob, n):
@@ -108,6 +135,7 @@ def write_blob(ex, st, fh, off, blob, n):
     ln = h['len'].t
     h['len'] = VInt(z3.If(off + n > ln, off + n, ln))
     h['pos'] = VInt(off + n)
+    h['$pending'] = tuple(h.get('$pending', ())) + ((off, n),)
 
 
 def crash_point(ex, st, what):
@@ -131,8 +159,21 @@ def crash_point(ex, st, what):
 
 
 # ---- methods of the file object -------------------------------------------------------------------------------------
+def _flush(h):
+    """io.BufferedRandom: seek(), read(), flush() and close() hand the buffered writes to the OS; write() alone
+    may leave them in the process (they are lost if the process dies)"""
+    h['$pending'] = ()
+
+
+def f_durable(st, fh, off, n):
+    """no byte of [off, off+n) is still waiting in the handle's write buffer"""
+    pend = st.heap[fh.ref].get('$pending', ())
+    return z3.And([disjoint(off, n, po, pn) for po, pn in pend]) if pend else z3.BoolVal(True)
+
+
 def _m_seek(ex, st, v, args, kwargs, node):
     h = st.heap[v.ref]
+    _flush(h)
     off = to_int(args[0])
     whence = args[1] if len(args) > 1 else kwargs.get('whence', VInt(0))
     w = whence.conc() if isinstance(whence, VInt) else None
@@ -153,6 +194,7 @@ def _m_tell(ex, st, v, args, kwargs, node):
 
 def _m_read(ex, st, v, args, kwargs, node):
     h = st.heap[v.ref]
+    _flush(h)
     pos = h['pos'].t
     if not args:
         n = h['len'].t - pos
@@ -180,7 +222,9 @@ def _m_read(ex, st, v, args, kwargs, node):
             b = h2['$blob_at'](pos, n)
             s2.assume(blob_len(b) == n)
             h2['pos'] = VInt(pos + n)
-            res.append((s2, VBlob(b, n)))
+            vb = VBlob(b, n)
+            vb.src = (h2['$int_at'], pos)       # the integer fields of these bytes (struct.unpack)
+            res.append((s2, vb))
         else:
             m = z3.Int(uid('shortn'))
             s2.assume(z3.And(m >= 0, m < n))
@@ -196,6 +240,20 @@ def _m_write(ex, st, v, args, kwargs, node):
         write_int(ex, st, v, pos, d.k, d.t)
         crash_point(ex, st, 'write(%d bytes)' % d.k)
         return [(st, VInt(d.k))]
+    raw = const_bytes(d)
+    if raw is not None and 0 < len(raw) <= 16:
+        d = VPacked(len(raw), z3.IntVal(int.from_bytes(raw, 'little')))
+        write_int(ex, st, v, pos, d.k, d.t)
+        crash_point(ex, st, 'write(%d constant bytes)' % d.k)
+        return [(st, VInt(d.k))]
+    if isinstance(d, VPackedSeq):
+        total = 0
+        for k, t in d.fields:
+            write_int(ex, st, v, pos + total, k, t)
+            total += k
+        h['$pending'] = tuple(h['$pending'][:len(h['$pending']) - len(d.fields)]) + ((pos, z3.IntVal(total)),)
+        crash_point(ex, st, 'write(%d packed bytes)' % total)
+        return [(st, VInt(total))]
     if isinstance(d, VBlob):
         # torn variant: the process dies after a prefix of the payload reached the file
         tgt = ex.cur_target or {}
@@ -211,14 +269,20 @@ def _m_write(ex, st, v, args, kwargs, node):
     raise Unsupported('file.write(%r)' % (d,))
 
 
+def _m_flush(ex, st, v, args, kwargs, node):
+    _flush(st.heap[v.ref])
+    return [(st, NONE)]
+
+
 def _m_close(ex, st, v, args, kwargs, node):
     st.heap[v.ref]['$closed'] = True
+    _flush(st.heap[v.ref])
     return [(st, NONE)]
 
 
 FILE_METHODS = {
     'seek': _m_seek, 'tell': _m_tell, 'read': _m_read, 'write': _m_write, 'close': _m_close,
-    'flush': lambda ex, st, v, a, k, n: [(st, NONE)],
+    'flush': _m_flush,
     '__enter__': lambda ex, st, v: [(st, v)],
     '__exit__': lambda ex, st, v, kind, val: [(st, None)],
     '__bool__': lambda ex, st, v: z3.BoolVal(True),
@@ -231,6 +295,15 @@ FMT_SIZE = {'<Q': 8, '<L': 4, '<I': 4, '<q': 8, '<H': 2, '<B': 1}
 
 def struct_pack(ex, st, args, kwargs, node):
     fmt = args[0].conc() if isinstance(args[0], VStr) else None
+    ks = parse_fmt(fmt) if fmt else None
+    if ks and len(ks) > 1 and len(args) == len(ks) + 1:
+        vals = [to_int(a) for a in args[1:]]
+        inr = z3.And([z3.And(v >= 0, v < 256 ** k) for k, v in zip(ks, vals)])
+        res = []
+        for s2, ok in ex.branch(st, inr):
+            res.append((s2, VPackedSeq(list(zip(ks, vals))) if ok else Raised('struct.error', note='value out of range for %s' % fmt)))
+        ex.used_stubs.add('struct little-endian pack/unpack of unsigned ints: value <-> k-byte field (A-struct)')
+        return res
     if fmt not in FMT_SIZE or len(args) != 2:
         raise Unsupported('struct.pack(%r)' % (fmt,))
     k = FMT_SIZE[fmt]
@@ -244,6 +317,25 @@ def struct_pack(ex, st, args, kwargs, node):
 
 def struct_unpack(ex, st, args, kwargs, node):
     fmt = args[0].conc() if isinstance(args[0], VStr) else None
+    ks = parse_fmt(fmt) if fmt else None
+    if ks and len(ks) > 1:
+        data = args[1]
+        if not isinstance(data, VBlob) or getattr(data, 'src', None) is None:
+            raise Unsupported('multi-field unpack of %r' % (data,))
+        int_at, pos = data.src
+        res = []
+        for s2, ok in ex.branch(st, data.len == sum(ks)):
+            if not ok:
+                res.append((s2, Raised('struct.error', note='unpack requires a buffer of %d bytes' % sum(ks))))
+                continue
+            items, o = [], 0
+            for k in ks:
+                val = int_at(pos + o, z3.IntVal(k))
+                s2.assume(z3.And(val >= 0, val < 256 ** k))
+                items.append(VInt(val))
+                o += k
+            res.append((s2, VSeq(items, kind='tuple')))
+        return res
     if fmt not in FMT_SIZE:
         raise Unsupported('struct.unpack(%r)' % (fmt,))
     return _unpack(ex, st, FMT_SIZE[fmt], args[1])
@@ -280,6 +372,38 @@ def blob_concat(a, b):
     raise Unsupported('blob concatenation')
 
 
+def const_bytes(v):
+    """concrete bytes value -> python bytes, else None (z3 prints non-printable characters as \\u{..})"""
+    import re
+    if not (isinstance(v, VStr) and v.isbytes) or v.conc() is None:
+        return None
+    txt = re.sub(r'\\u\{([0-9a-fA-F]+)\}', lambda m: chr(int(m.group(1), 16)), v.conc())
+    try:
+        return txt.encode('latin-1')
+    except UnicodeEncodeError:
+        return None
+
+
+def packed_slice(ex, st, base, lo, hi):
+    """p[:k] of a little-endian field: the k low-order bytes"""
+    if lo is not None and not isinstance(lo, VNone):
+        raise Unsupported('packed[lo:]')
+    k = hi.conc() if isinstance(hi, VInt) else None
+    if k is None or not (0 < k <= base.k):
+        raise Unsupported('packed[:%r]' % (hi,))
+    return [(st, VPacked(k, base.t % (256 ** k)))]
+
+
+def packed_add(ex, st, a, b):
+    """field + constant zero bytes: the same little-endian value in a wider field"""
+    raw = const_bytes(b)
+    if isinstance(a, VPacked) and raw is not None and set(raw) <= {0}:
+        if a.k < 0:
+            return [(st, VPacked(-1, a.t))]        # short read stays short
+        return [(st, VPacked(a.k + len(raw), a.t))]
+    raise Unsupported('bytes concatenation %r + %r' % (a, b))
+
+
 def blob_slice(ex, st, base, lo, hi):
     raise Unsupported('blob slice')
 
@@ -291,7 +415,7 @@ def b_open(ex, st, args, kwargs, node):
 def install(B):
     B.STUB_TYPES['file'] = _file_fresh
     B.STUB_CLASSES['$file'] = FILE_METHODS
-    for k_ in (1, 2, 4, 8):
+    for k_ in (1, 2, 4, 5, 8):
         B.STUB_CLASSES['$struct%d' % k_] = {'pack': _s_pack, 'unpack': _s_unpack}
     B.EXTERNS['struct.pack'] = struct_pack
     B.EXTERNS['struct.unpack'] = struct_unpack
@@ -310,6 +434,9 @@ def install(B):
     def sp_fblob(ex, st, args, kwargs, node):
         n = to_int(args[2])
         return [(st, VBlob(f_blob(st, args[0], to_int(args[1]), n), n))]
+    def sp_fdurable(ex, st, args, kwargs, node):
+        return [(st, VBool(f_durable(st, args[0], to_int(args[1]), to_int(args[2]))))]
+    B.BUILTINS['f_durable'] = sp_fdurable
     B.BUILTINS['f_len'] = sp_flen
     B.BUILTINS['f_int'] = sp_fint
     B.BUILTINS['f_blob'] = sp_fblob
